@@ -3,6 +3,7 @@
    Proofs/SamplerP.v.  bin/check recompiles this file on every run and reads
    the Print Assumptions output. *)
 From Verif Require Import Base.Prelude Misc.Level Lts.Sampler Proofs.SamplerP.
+From Verif Require Base.GoSem Enc.JsonEnc Enc.GoStd Gen.SamplerSrc Proofs.SrcSamplerP.
 Open Scope N_scope.
 
 (* BasicSampler{N}, N >= 2, fresh counter: for every history of k < 2^32 calls
@@ -112,6 +113,29 @@ Example C13_ex_concurrent :
   let s := brun 2 [2;1]%nat [0;1;0]%nat in total (b_todo s) = 0%nat /\ b_log s = [(0%nat,true);(1%nat,false);(0%nat,true)].
 Proof. vm_compute. auto. Qed.
 
+(* ---- the source: sampler.go's BasicSampler.Sample and BurstSampler.inc, re-translated on every run by srcgen
+   (Gen/SamplerSrc.v: the receiver struct is the record of its scalar fields, returned updated; sync/atomic operations on a
+   field are a read / modify / write of that field; TimestampFunc() is the oracle parameter clk), are the model's
+   [basic_sample] and [burst_inc] for every field value, counter and clock reading.  BurstSampler.Sample, LevelSampler.Sample
+   (interface-typed fields) and RandomSampler.Sample (math/rand) are not translated. ---- *)
+Theorem C13_source_basic_sample : forall n cnt lvl,
+  SamplerSrc.BasicSampler_Sample {| SamplerSrc.BasicSampler_N := n; SamplerSrc.BasicSampler_counter := cnt |} lvl =
+  GoSem.Ok (fst (basic_sample n cnt),
+            {| SamplerSrc.BasicSampler_N := n; SamplerSrc.BasicSampler_counter := snd (basic_sample n cnt) |}).
+Proof. exact SrcSamplerP.BasicSampler_Sample_src. Qed.
+
+Theorem C13_source_burst_inc : forall clk burst period cnt resetAt,
+  SamplerSrc.inc clk {| SamplerSrc.BurstSampler_Burst := burst; SamplerSrc.BurstSampler_Period := period;
+                        SamplerSrc.BurstSampler_counter := cnt; SamplerSrc.BurstSampler_resetAt := resetAt |} =
+  GoSem.Ok (let '(c, cnt', resetAt') := burst_inc period cnt resetAt (JsonEnc.t_unixnano clk) in
+            (c, {| SamplerSrc.BurstSampler_Burst := burst; SamplerSrc.BurstSampler_Period := period;
+                   SamplerSrc.BurstSampler_counter := cnt'; SamplerSrc.BurstSampler_resetAt := resetAt' |})).
+Proof. exact SrcSamplerP.BurstSampler_inc_src. Qed.
+
+Theorem C13_source_translated_set :
+  length SamplerSrc.translated_functions = 2%nat /\ length SamplerSrc.skipped_functions = 3%nat.
+Proof. exact SrcSamplerP.sampler_counts. Qed.
+
 Print Assumptions C13_basic_exact.
 Print Assumptions C13_basic_exact_pow2.
 Print Assumptions C13_basic_zero_none.
@@ -124,3 +148,6 @@ Print Assumptions C13_burst_disabled.
 Print Assumptions C13_level_sampler.
 Print Assumptions C13_gate_before_sampler.
 Print Assumptions C13_disable_sampling.
+Print Assumptions C13_source_basic_sample.
+Print Assumptions C13_source_burst_inc.
+Print Assumptions C13_source_translated_set.
